@@ -26,6 +26,7 @@ import (
 	"github.com/ory/fosite"
 	"github.com/ory/fosite/compose"
 	"github.com/ory/fosite/storage"
+	"github.com/ory/x/errorsx"
 	"github.com/ory/fosite/zz_verif_h/world"
 	"github.com/ory/fosite/zz_verif_h/zz"
 )
@@ -45,6 +46,8 @@ type spyCall struct{ deviceSig, userSig string }
 type spyStore struct {
 	*storage.MemoryStore
 	contract    bool
+	wrapped     bool // contract store: sentinels are returned wrapped (errorsx.WithStack), as SQL-backed stores do
+	strictRevoke bool // contract store: revoking the refresh token of a grant that has none is ErrNotFound
 	invalidated map[string]fosite.DeviceRequester
 	created     []spyCall
 }
@@ -57,10 +60,22 @@ func (s *spyStore) CreateDeviceAuthSession(ctx context.Context, deviceCodeSignat
 func (s *spyStore) GetDeviceCodeSession(ctx context.Context, signature string, session fosite.Session) (fosite.DeviceRequester, error) {
 	if s.contract {
 		if r, ok := s.invalidated[signature]; ok {
+			if s.wrapped {
+				return r, errorsx.WithStack(fosite.ErrInvalidatedDeviceCode)
+			}
 			return r, fosite.ErrInvalidatedDeviceCode
 		}
 	}
 	return s.MemoryStore.GetDeviceCodeSession(ctx, signature, session)
+}
+
+func (s *spyStore) RevokeRefreshToken(ctx context.Context, requestID string) error {
+	if s.contract && s.strictRevoke {
+		if _, ok := s.MemoryStore.RefreshTokenRequestIDs[requestID]; !ok {
+			return fosite.ErrNotFound // (the refresh-token reuse handler of fosite tolerates exactly this answer)
+		}
+	}
+	return s.MemoryStore.RevokeRefreshToken(ctx, requestID)
 }
 
 func (s *spyStore) InvalidateDeviceCodeSession(ctx context.Context, signature string) error {
@@ -94,10 +109,20 @@ type st struct {
 	}
 	flows []*flow
 	elapsed int64 // total clock advance since the first device request (ns)
+	scope   string
 }
 
 func newState(contract bool) *st {
-	s := &st{}
+	s := &st{scope: "offline photos"}
+	variant := 0
+	if contract {
+		// 0: bare sentinels; 1: wrapped sentinels; 2: a grant without refresh token over a store that answers
+		// ErrNotFound when asked to revoke a refresh token that does not exist
+		variant = zz.Choice("contract-store", 3)
+		if variant == 2 {
+			s.scope = "photos"
+		}
+	}
 	s.w = world.New(world.Options{
 		Tweak: func(cfg *fosite.Config) {
 			cfg.DeviceAndUserCodeLifespan = lifespan
@@ -105,7 +130,7 @@ func newState(contract bool) *st {
 		},
 		Extra: []compose.Factory{compose.RFC8628DeviceFactory, compose.RFC8628DeviceAuthorizationTokenFactory},
 		WrapStore: func(ms *storage.MemoryStore) interface{} {
-			s.spy = &spyStore{MemoryStore: ms, contract: contract, invalidated: map[string]fosite.DeviceRequester{}}
+			s.spy = &spyStore{MemoryStore: ms, contract: contract, wrapped: variant == 1, strictRevoke: variant == 2, invalidated: map[string]fosite.DeviceRequester{}}
 			return s.spy
 		},
 	})
@@ -133,7 +158,7 @@ func sigOf(tok string) string {
 
 // deviceAuthorize starts a flow for client (with its registered secret).
 func (s *st) deviceAuthorize(client, secret string) *flow {
-	form := url.Values{"client_id": {client}, "client_secret": {secret}, "scope": {"offline photos"}}
+	form := url.Values{"client_id": {client}, "client_secret": {secret}, "scope": {s.scope}}
 	now := time.Now()
 	nCreated := len(s.spy.created)
 	req, err := s.w.Provider.NewDeviceRequest(s.w.Ctx, world.Post(form))
